@@ -2,6 +2,7 @@ import Proofs.Effects
 import Proofs.Objs
 import BycycleModel.EffectPrograms
 import Proofs.ObjMachine
+import Proofs.EffectsTranslated
 import BycycleModel.ObjTrace
 /-!
 # C14 — Bycycle objects reproduce the functional API and hold no stale state
@@ -33,6 +34,24 @@ theorem C14_reduce (th : List (String × Rat)) (r : Option Rat) :
     reduceThresholds th r = (th.map fun p => if p.1.endsWith "threshold" then (p.1, p.2 - r.getD 0) else p) ∧
     reduceThresholds th none = th :=
   ⟨reduceThresholds_spec th r, reduceThresholds_none th⟩
+
+/-- the same statement for the bodies TRANSLATED from bycycle/objs/fit.py on every run (harness/efftrans.py): `Bycycle.fit`,
+`recompute_edges`, `load`, `reduce_thresholds` and `__getattr__`, with every call into bycycle's functions executed, write at most
+attribute slots of `self` (position 0) - never an object held in the instance (option dictionaries, signal, table) nor another
+argument. So the settings a later fit reads are the ones construction and explicit edits put there. -/
+theorem C14_translated_methods (n : String) (hn : n ∈ Eff.T.selfOnly) (f : Eff.Fn) (hf : Eff.lookupFn Eff.T.fns n = some f)
+    (fuel : Nat) (oracle : List Bool) (o : Nat) (ho : o ∈ f.runFull Eff.T.fns Eff.T.summ fuel oracle) : o = 0 :=
+  Eff.T.selfOnly_frame n hn f hf fuel oracle o ho
+
+/-- … and the attribute slots they rebind (read off the source on every run) are exactly these: a fit / load replaces the signal,
+its rates and the table; an edge recomputation replaces the table only; `reduce_thresholds` and attribute access replace nothing.
+In particular none of them rebinds `thresholds`, `burst_kwargs`, `find_extrema_kwargs`, `center_extrema`, `burst_method` or
+`return_samples`, nor writes into them (previous theorem): the object machine's `step` changes settings only in the edit operations. -/
+theorem C14_rebound_slots : Eff.T.selfAssigns =
+    [("Bycycle.fit", ["df_features", "f_range", "fs", "sig"]), ("Bycycle.recompute_edges", ["df_features"]),
+     ("Bycycle.load", ["df_features", "f_range", "fs", "sig"]), ("BycycleBase.reduce_thresholds", []), ("Bycycle.__getattr__", [])] := by decide
+
+example : "Bycycle.fit" ∈ Eff.T.selfOnly ∧ (Eff.lookupFn Eff.T.fns "Bycycle.fit").isSome = true := by decide +kernel
 
 /-! ## The object as a state machine (BycycleModel/ObjMachine.lean)
 
